@@ -940,6 +940,20 @@ fn gen_struct_ty(rng: &mut Rng, depth: usize, pool: &[Ty], maxf: u64) -> Ty {
             Ty::Named('t', ks.into_iter().map(|k| (k, gen_field_ty(rng, depth, pool))).collect())
         }
         6..=7 => {
+            if rng.chance(1, 3) {
+                // newtype (single-field tuple struct) over a container whose own JSON could be mistaken for the
+                // wrapper array: Vec<Vec<_>>, Option<Vec<Option<_>>>, a struct of optional fields only
+                let leaf = Ty::Num(rng.below(11) as usize);
+                let inner = match rng.below(3) {
+                    0 => Ty::Vec(Box::new(Ty::Vec(Box::new(leaf)))),
+                    1 => Ty::Opt(Box::new(Ty::Vec(Box::new(Ty::Opt(Box::new(leaf)))))),
+                    _ => {
+                        let ks = gen_keys(rng, 2, "f", false);
+                        Ty::Named('d', ks.into_iter().map(|k| (k, Ty::Opt(Box::new(Ty::Str)))).collect())
+                    }
+                };
+                return Ty::Tuple(vec![inner]);
+            }
             let n = rng.range(1, maxf.min(6)) as usize;
             Ty::Tuple((0..n).map(|_| gen_field_ty(rng, depth, pool)).collect())
         }
